@@ -27,9 +27,11 @@ SetToSeq(S) == LET n == Cardinality(S)
 \* with the reason, so that the continuations after an Unflag and after a Prune are both kept.  With alt in
 \* the VIEW the cover contains, for each such leftover, the continuations in which it would fire.
 NoAlt == [d |-> 0, why |-> ""]
+GhostPeers == IF Cardinality(Peers) > 1 THEN {1} ELSE Peers    \* peers are symmetric: one carries the ghost
 AltNext ==
   alt' = [p \in Peers |->
-            CASE res'.op = "flag" /\ res'.p = p /\ fl'[p] = fl[p]            -> [d |-> seq + T, why |-> "ignored"]
+            CASE p \notin GhostPeers -> NoAlt
+              [] res'.op = "flag" /\ res'.p = p /\ fl'[p] = fl[p]            -> [d |-> seq + T, why |-> "ignored"]
               [] res'.op \in {"unflag", "prune"} /\ fl[p] # 0 /\ fl'[p] = 0 -> [d |-> fl[p], why |-> res'.op]
               [] res'.op = "sweep" /\ p \in cbs'                             -> [d |-> fl[p], why |-> "consumed"]
               [] res'.op = "sweep" /\ alt[p].d # 0 /\ alt[p].d < seq         -> NoAlt      \* would have fired
